@@ -90,6 +90,19 @@ func (w *sworld) atQuiescence() {
 			w.logf("QUIESCENT [%s] %s", n, obs[n])
 		}
 	}
+	if env.On("C18") {
+		w.forkCheck()
+		// unrelated events since the previous quiescence must not have reached the handler
+		for _, n := range running {
+			inc := w.spk[n]
+			if inc.cfgCallsAtQ >= 0 && !w.cfgRelevantSinceQ && !inc.restartedSinceQ && inc.cfgCalls != inc.cfgCallsAtQ {
+				w.violate("C18", "unrelated-event-reached-the-handler", "", fmt.Sprintf("speaker %s: only events that do not change the configuration happened since the last quiescence, yet the configuration handler ran %d more time(s)", n, inc.cfgCalls-inc.cfgCallsAtQ))
+			}
+			inc.cfgCallsAtQ = inc.cfgCalls
+			inc.restartedSinceQ = false
+		}
+		w.cfgRelevantSinceQ = false
+	}
 	if !w.apiConfigAccepted() {
 		w.stat("probe.quiescence-with-rejected-config")
 		w.prevValid = false
@@ -298,6 +311,101 @@ func (w *sworld) atQuiescence() {
 }
 
 func (w *sworld) c09sig(st *specspk.State) string { return "" }
+
+// forkCheck is C18: k fresh ConfigReconcilers over the same API snapshot, each with its own List
+// permutations and map iteration orders, must either all hand the same configuration
+// (reflect.DeepEqual, the comparison MetalLB itself uses) to the handler or all reject; and a
+// second computation from the same snapshot must look unchanged to each of them.
+func (w *sworld) forkCheck() {
+	validate := config.DiscardFRROnly
+	if w.k.bgpType != "native" {
+		validate = config.DiscardNativeOnly
+	}
+	saved := simrt.MapOrder
+	simrt.MapOrder = func(n int) []int { return w.ch.Perm(n, "fork map order") }
+	defer func() { simrt.MapOrder = saved }()
+	var first *config.Config
+	firstCalled := false
+	for i := 0; i < 5; i++ {
+		cache := simk8s.NewCache(w.srv, spkKinds)
+		for _, k := range spkKinds {
+			cache.Sync(k, identity)
+		}
+		var got *config.Config
+		calls := 0
+		cl := &simk8s.Client{C: cache}
+		if i > 0 {
+			cl.ListPerm = w.perm("fork list order")
+		}
+		r := &controllers.ConfigReconciler{Client: cl, Logger: log.NewNopLogger(), Namespace: metallbNS, ValidateConfig: validate, ForceReload: func() {}, BGPType: w.k.bgpType,
+			Handler: func(l log.Logger, cfg *config.Config) controllers.SyncState {
+				got = cfg
+				calls++
+				return controllers.SyncStateSuccess
+			}}
+		_, _ = r.Reconcile(context.Background(), reqFor(metallbNS+"/x"))
+		w.stat("probe.fork-reconcile")
+		if i == 0 {
+			first, firstCalled = got, calls == 1
+		} else {
+			if (calls == 1) != firstCalled {
+				w.violate("C18", "acceptance-depends-on-order", "", fmt.Sprintf("the same snapshot is accepted=%v under one listing/map order and accepted=%v under another", firstCalled, calls == 1))
+				return
+			}
+			if firstCalled && !reflect.DeepEqual(first, got) {
+				w.violate("C18", "configuration-depends-on-order", "", fmt.Sprintf("two computations of the same snapshot under different listing/map orders are not equal: %s", cfgDiff(first, got)))
+				return
+			}
+		}
+		if calls == 1 {
+			w.nontrivial = true
+			cl.ListPerm = w.perm("fork list order")
+			_, _ = r.Reconcile(context.Background(), reqFor(metallbNS+"/y"))
+			if calls != 1 {
+				w.violate("C18", "recomputation-looks-like-a-change", "", fmt.Sprintf("reconciling the same snapshot a second time invoked the configuration handler again: %s", cfgDiff(first, got)))
+				return
+			}
+		}
+	}
+}
+
+func cfgDiff(a, b *config.Config) string {
+	if a == nil || b == nil {
+		return "one is nil"
+	}
+	var out []string
+	if !reflect.DeepEqual(a.Peers, b.Peers) {
+		out = append(out, "peers differ")
+	}
+	if !reflect.DeepEqual(a.BFDProfiles, b.BFDProfiles) {
+		out = append(out, "bfd profiles differ")
+	}
+	if a.Pools != nil && b.Pools != nil {
+		if !reflect.DeepEqual(a.Pools.ByNamespace, b.Pools.ByNamespace) {
+			out = append(out, fmt.Sprintf("ByNamespace %v vs %v", a.Pools.ByNamespace, b.Pools.ByNamespace))
+		}
+		if !reflect.DeepEqual(a.Pools.ByServiceSelector, b.Pools.ByServiceSelector) {
+			out = append(out, fmt.Sprintf("ByServiceSelector %v vs %v", a.Pools.ByServiceSelector, b.Pools.ByServiceSelector))
+		}
+		for n, p := range a.Pools.ByName {
+			q := b.Pools.ByName[n]
+			if q == nil {
+				out = append(out, "pool "+n+" missing")
+				continue
+			}
+			if !reflect.DeepEqual(p.L2Advertisements, q.L2Advertisements) {
+				out = append(out, "pool "+n+": L2 advertisements differ (order or content)")
+			}
+			if !reflect.DeepEqual(p.BGPAdvertisements, q.BGPAdvertisements) {
+				out = append(out, "pool "+n+": BGP advertisements differ (order or content)")
+			}
+			if !reflect.DeepEqual(p.CIDR, q.CIDR) {
+				out = append(out, "pool "+n+": CIDRs differ")
+			}
+		}
+	}
+	return strings.Join(out, "; ")
+}
 
 func mapsEq(a, b map[string][]string) bool {
 	for k, v := range a {
